@@ -5,3 +5,86 @@ pub(crate) mod spec_sgr;
 pub(crate) mod astyle;
 pub(crate) mod amodel;
 mod ls_core;
+
+// ---- the whole of `parse` (tokeniser and early returns included) on CONCRETE strings: a bounded
+// stand-in for the part of the function that the cut-out loop (ls_core) does not contain ----
+
+fn ls_expect(code: &str, want: Option<anstyle::Style>) {
+    assert!(crate::parse(code) == want, "parse: no style for the empty string, `0`, `00` and anything that is not a `;`-separated list of numbers 0-255; otherwise the codes applied left to right");
+}
+
+macro_rules! ls_strings {
+    ($name:ident, $body:block) => {
+        #[cfg_attr(kani, kani::proof, kani::unwind(20))]
+        #[cfg_attr(not(kani), test)]
+        fn $name() $body
+    };
+}
+
+ls_strings!(ls_text_no_style, {
+    ls_expect("", None);
+    ls_expect("0", None);
+    ls_expect("00", None);
+});
+ls_strings!(ls_text_rejects, {
+    ls_expect("x", None);
+    ls_expect("1;x", None);
+    ls_expect("1;;31", None);
+    ls_expect("256", None);
+    ls_expect("1;-1", None);
+    ls_expect(";", None);
+    ls_expect("1 ;31", None);
+    ls_expect("1:31", None);
+});
+ls_strings!(ls_text_accepts, {
+    use anstyle::{AnsiColor, Color, Effects, Style};
+    ls_expect("1", Some(Style::new().bold()));
+    ls_expect("01;31", Some(Style::new().bold().fg_color(Some(Color::Ansi(AnsiColor::Red)))));
+    ls_expect("000", Some(Style::new()));
+    ls_expect("31;0", Some(Style::new()));
+});
+
+/// NOT REGISTERED (CBMC: > 8 min, > 6 GB, growing).  The tokeniser's accept / reject decision for EVERY ASCII string of up to 3 bytes (bytes
+/// symbolic): a style is returned iff the string is a `;`-separated list of decimal numbers 0-255
+/// and is not "", "0" or "00".  (A leading `+`, which Rust's integer parser accepts, is outside
+/// the statement: unconstrained.)
+#[cfg_attr(kani, kani::proof, kani::unwind(8))]
+#[cfg_attr(not(kani), test)]
+fn ls_text_any_ascii_3() {
+    let buf = [vk::any_u8_in(0, 0x7f), vk::any_u8_in(0, 0x7f), vk::any_u8_in(0, 0x7f)];
+    let len = vk::any_usize_in(0, 3);
+    let s = core::str::from_utf8(&buf[..len]).unwrap();
+    let got = crate::parse(s).is_some();
+    // reference tokeniser (one pass)
+    let mut ok = true;
+    let mut plus = false;
+    let mut digits = 0usize;
+    let mut val: u32 = 0;
+    let mut i = 0;
+    while i < 3 {
+        if i < len {
+            let b = buf[i];
+            if b == b';' {
+                if digits == 0 { ok = false; }
+                digits = 0;
+                val = 0;
+            } else if b'0' <= b && b <= b'9' {
+                digits += 1;
+                val = val * 10 + (b - b'0') as u32;
+                if val > 255 { ok = false; }
+            } else if b == b'+' {
+                plus = true;
+            } else {
+                ok = false;
+            }
+        }
+        i += 1;
+    }
+    if digits == 0 { ok = false; }
+    let special = len == 0 || (len == 1 && buf[0] == b'0') || (len == 2 && buf[0] == b'0' && buf[1] == b'0');
+    if !plus {
+        assert!(got == (ok && !special), "parse returns a style iff the text is a `;`-separated list of numbers 0-255 other than the empty string, `0` and `00`");
+    }
+    vk::vk_cover!(got && len == 3, "three-byte list accepted");
+    vk::vk_cover!(!got && ok && special, "`0` / `00`");
+}
